@@ -672,7 +672,10 @@ class LoadEngine(object):
     # -- run -------------------------------------------------------------
     def run(self):
         t, w = self.t, self.w
-        c = self.c = Ctl(w, buffers=BUFFERS, n_tries_range=(2, 5))
+        from .common import RELIABLE_FAULTS
+        c = self.c = Ctl(w, allowed_faults=RELIABLE_FAULTS +
+                         ["sleep_overshoot"], buffers=BUFFERS,
+                         n_tries_range=(2, 5))
         big = self.tier == "thorough" and t.draw(20) == 0
         if big:
             dim = [64, 255][t.draw(2)]
